@@ -76,7 +76,7 @@ _SPEC = re.compile(r'^%?(?:.?[<>=^])?[ +\-#0]*\d*[,_]?(?:\.(\d+))?([a-zA-Z])$')
 
 def printed_ok(spec, need):
     """does a number printed with ``spec`` (%-style or format-style) come back within the tolerance the property
-    states?  need: 'T' (0.1 K at up to 9999.9 K: fixed notation with a decimal, or five significant digits) or 'coef'
+    states?  need: 'T' (0.1 K at up to 9999.9 K: fixed notation with a decimal, or six significant digits) or 'coef'
     (nine significant digits)"""
     mm = _SPEC.match(spec or '')
     if not mm:
@@ -446,12 +446,15 @@ def both_outcomes(run, repo, hz, thorough):
     if thorough:
         chosen, sigs = [], set()
         for c in hosts:
-            sg = tuple(sorted((what, w) for _, _, what, w in text_fields(c[1]))) + tuple(sorted(c[2].items()))
+            sg = tuple(sorted((what, w) for _, _, what, w in text_fields(c[1]))) + \
+                tuple(sorted((k_, v_) for k_, v_ in c[2].items() if k_ != 'counts'))
             if sg not in sigs:
                 sigs.add(sg)
                 chosen.append(c)
     else:
-        chosen = sorted(single, key=width)[-1:] + multi[:1]
+        # quick: the instance with the widest texts (a single species if there is one: a record that is skipped or
+        # cut there leaves nothing to attach the following records to); thorough: every shape the test was met in
+        chosen = sorted(single, key=width)[-1:] or multi[:1]
     n_w = 0
     for label, specs, kw in chosen:
         many = len(specs) > 1
@@ -606,13 +609,13 @@ def check(run, repo):
     # collection (nothing of the first call is remembered), whichever format is asked for, and a further read of the
     # unchanged file gives the same species again
     second = [(15, 8, [(1, 2), (1, 1)], (6, 6, 6)), (8, 5, [(2, 2)], (5, 6, 6)), (3, None, [(2, 1), (1, 1)], (3, 5, 4))]
-    for to_file in (True, False):
+    for to_file in ((True, False) if thorough else (True,)):
         how = 'file' if to_file else 'text'
         first = instance('one file name written twice (%s): first collection' % how, multi[:2], layout=False,
                          suffix=' [first of two collections under one file name]', collect=False, to_file=to_file)
         if first is None:
             continue
-        for fmt in ('dict', 'list'):
+        for fmt in (('dict', 'list') if thorough else ('dict',)):
             again = read_again(repo, first, fmt)
             compare_species(run, repo, again, 'first collection read again, format=%s' % fmt,
                             ' [unchanged file read again]')
@@ -620,7 +623,7 @@ def check(run, repo):
                         suffix=' [same file name written again]', collect=False, to_file=to_file, reuse=first, tag0=20)
         if res2 is None:
             continue
-        for fmt in ('list', 'tuple'):
+        for fmt in (('list', 'tuple') if thorough else ('tuple',)):
             again = read_again(repo, res2, fmt)
             compare_species(run, repo, again, 'second collection read again, format=%s' % fmt,
                             ' [same file name written again]')
@@ -712,6 +715,8 @@ MUTANTS = [
      'edits': [(T_, "            two_digit = len(str(val)) - 1", "            two_digit = 2 if val >= 99 else (1 if val >= 10 else 0)")]},
     {'name': 'everything after a ! is a comment (names that contain one are cut)', 'expect': ('TABLE.readback', 'read_thermdat'),
      'edits': [(T_, "            # Skip header temperatures\n            if _is_temperature_header(line):", "            line = line.split('!')[0]\n            if _is_temperature_header(line):")]},
+    {'name': 'coefficient buffers of the reader in single precision (seven digits)', 'expect': ('T', 'thermdat'),
+     'edits': [(T_, "    nasa_data['a_high'] = np.zeros(7)", "    nasa_data['a_high'] = np.zeros(7, dtype='float32')")]},
     {'name': 'short lines starting with END or THERMO are keywords, whatever their length (a species named END...)',
      'expect': ('PATH.record-safe', 'read_thermdat'),
      'edits': [(T_, "            is_record = len(line.rstrip()) >= 80\n", "            is_record = not (line.startswith('END') or line.startswith('THERMO'))\n")]},
